@@ -316,7 +316,11 @@ pub fn gen_random(seed: u64, idx: u64) -> Plan {
     let mut nonce = 1u64;
     let mut conns = Vec::new();
     let plain = r.chance(1, 4);
+    // one run in five has one HTTP/2 connection: the same malformations as
+    // overlapping streams next to valid ones
+    let h2_conn = if r.chance(1, 5) { Some(r.usize_in(0, nconns - 1)) } else { None };
     for i in 0..nconns {
+        let is_h2 = h2_conn == Some(i);
         let mut c = blank_conn(7000 + i as u16);
         c.start_ms = r.range(0, 40);
         if !plain {
@@ -337,10 +341,19 @@ pub fn gen_random(seed: u64, idx: u64) -> Plan {
                 _ => gen_mp(&mut r, nonce, steps, step_ms),
             };
             let bad = if r.chance(3, 5) { malform(&mut r, &mut e) } else { None };
+            if is_h2 {
+                e.framing = BodyFraming::Length;
+            }
             let rp = match bad {
                 Some(why) => ReqPlan { nonce, head_method: false, expect: Expect::Refuse { why } },
-                None => echo_plan(&e, nonce, false),
+                None => echo_plan(&e, nonce, is_h2),
             };
+            if is_h2 {
+                c.h2.push(e.h2(j, r.range(0, 30)));
+                c.reqs.push(rp);
+                nonce += 1;
+                continue;
+            }
             c.steps.push(Step::Send { data: Blob(e.h1_bytes()), completes: Some(j) });
             c.reqs.push(rp);
             pending += 1;
@@ -350,7 +363,11 @@ pub fn gen_random(seed: u64, idx: u64) -> Plan {
             }
             nonce += 1;
         }
-        c.steps.push(Step::AwaitResponses { count: nreq, max_ms: 60_000 });
+        if is_h2 {
+            c.kind = ConnKind::H2;
+        } else {
+            c.steps.push(Step::AwaitResponses { count: nreq, max_ms: 60_000 });
+        }
         fit_c2s(&mut c);
         conns.push(c);
     }
@@ -468,6 +485,21 @@ pub fn check_c10(plan: &Plan, out: &Outcome, probes: &mut Vec<&'static str>) -> 
                     });
                 }
             }
+            let h2 = cp.kind == ConnKind::H2;
+            if h2 {
+                // streams are independent: no refusal closes the connection
+                closed_after_error = false;
+                if refuse && obs.by_req[k].is_some() {
+                    probes.push("h2_refusal_checked");
+                }
+                if let (None, Some(e)) = (&obs.by_req[k], &obs.h2_err[k]) {
+                    if e.starts_with("build:") {
+                        // hyper's client would not even send this one
+                        probes.push("h2_client_refused_to_send");
+                        continue;
+                    }
+                }
+            }
             match &obs.by_req[k] {
                 None => {
                     if closed_after_error
@@ -523,7 +555,7 @@ pub fn check_c10(plan: &Plan, out: &Outcome, probes: &mut Vec<&'static str>) -> 
                         if r.resp.status >= 400 {
                             closed_after_error = true;
                         }
-                        check_echo_response(rq, &r.resp, &peer, false, &mut v, probes);
+                        check_echo_response(rq, &r.resp, &peer, h2, &mut v, probes);
                     }
                 }
             }
